@@ -34,12 +34,12 @@ ASSUMPTIONS = [
     'the row vacated by scroll_up/scroll_down may stay or become blank (undocumented); cursor_up_reverse on the '
     'top line may change rows of the scroll region only; lf() on the bottom line scrolls the region and blanks '
     'the cursor line',
-    'single characters only (the API documents "a character"); bytes arguments are complete characters',
+    'single characters only (the API documents "a character"), control characters (LF, CR, ESC, NUL) included: the screen stores what it is given; bytes arguments are complete characters',
 ]
 BUDGET = {'quick': 200, 'thorough': 1500}
 EXHAUSTIVE_NOTE = 'all operation sequences of length <= 3 over the boundary alphabet on 1x1, 1x2, 2x2 screens'
 
-CHARS = ['a', 'b', 'Z', '#', ' ', '\xe9', '\xff']
+CHARS = ['a', 'b', 'Z', '#', ' ', '\xe9', '\xff', '\n', '\r', '\x1b', '\x00']
 CHARS_U = CHARS + ['€']
 
 NOARG = ['cr', 'lf', 'crlf', 'newline', 'cursor_up_reverse', 'cursor_save', 'cursor_unsave', 'cursor_save_attrs',
